@@ -213,6 +213,7 @@ pub fn main(args: &[String]) -> i32 {
     let entries: Vec<String> =
         o.get("entries").unwrap_or("flat,flat_wo,deep").split(',').map(|s| s.to_string()).collect();
     let forward_all = o.has("forward-all");
+    let totality = o.has("totality");
     let sample_every = o.num("sample-every", 0);
     let mut logf: Option<std::fs::File> = o.get("tlc-log").map(|p| std::fs::File::create(p).expect("log file"));
     let stdin = std::io::stdin();
@@ -237,7 +238,7 @@ pub fn main(args: &[String]) -> i32 {
         assert!(have_table, "case before table");
         n_cases += 1;
         let text: &'static str = Box::leak(uncps(text_v).into_boxed_str());
-        let expect = rec.get("expect").and_then(|e| e.as_str()).unwrap_or("ok");
+        let expect = if totality { "total" } else { rec.get("expect").and_then(|e| e.as_str()).unwrap_or("ok") };
         let ents: Vec<String> = match rec.get("entries").and_then(|e| e.as_array()) {
             Some(a) => a.iter().filter_map(|x| x.as_str().map(|s| s.to_string())).collect(),
             None => entries.clone(),
@@ -257,6 +258,7 @@ pub fn main(args: &[String]) -> i32 {
                         && rec.get("vars").map(|v| *v == oj["vars"]).unwrap_or(false)
                 }
                 "err" => obs.outcome == "err",
+                "total" => obs.outcome == "ok" || obs.outcome == "err",
                 _ => false,
             };
             if identical {
